@@ -164,10 +164,12 @@ PROPERTY_META = {
  "C13": dict(level="proof",
    text="The C01/C05/C06/C09 postconditions instantiated at (N, es) for PxE1<N>/PxE2<N>: operands are N-bit patterns left-aligned in u32, the result "
         "must be closed (low 32-N bits zero) and be the posit-rule rounding to N bits; one monomorphic Kani obligation per (es, N, operation). Quick: "
-        "N in {2,3,5,8}, all operations; thorough: every N <= 12 (plus mul/round at 16 and the PxE2<32> == P32E2 / PxE1<16> == P16E1 mul agreement).",
-   note=_KANI_NOTE + " Kani cannot make a const generic symbolic: 'every N' is one proof per N. Widths 13..32 of the 64-bit-datapath operations "
-        "(add, sub, div, fused, sqrt) are NOT discharged (SAT does not close them in hours, like P32); they are listed as tier 'deep' and not claimed.",
-   assumptions=["widths N >= 13 are not discharged for add/sub/div/mul_add/sqrt (out of the verifier's reach in the time budget)"]),
+        "N in {2,3,5,8}, all operations. Thorough: every N <= 12 all operations; every N: mul, round, and div (modularly against the divider contract "
+        "for N >= 13); N = 32 (es=2) and N = 16 (es=1): add/sub/mul agree bit for bit with P32E2 / P16E1, whose contracts are C01.",
+   note=_KANI_NOTE + " Kani cannot make a const generic symbolic: 'every N' is one proof per N. NOT discharged: add/sub for 13 <= N <= 31, mul_add family "
+        "and sqrt for N >= 13 (SAT does not close these 64-bit-datapath obligations in hours): tier 'deep', not claimed; a bounded native evaluation "
+        "of the same contracts on structured operands (labelled bounded) stands in for those widths.",
+   assumptions=["add/sub (13 <= N <= 31), mul_add/mul_sub/sub_product and sqrt (N >= 13) are not discharged by the verifier; bounded native sampling only"]),
  "C14": dict(level="proof",
    text="The C02/C03/C07/C08/C04 postconditions instantiated per width: fixed <-> generic posit conversions, generic <-> generic (other exponent size), "
         "to_f32/to_f64, integer <-> generic posit, Q32E2 -> PxE2<N> (all 2^512 states) and PxE2<N> -> Q32E2; one Kani obligation per (es, N[, M], function). "
